@@ -70,6 +70,9 @@ def floors(tier):
          "H_special:zero": k, "H_special:identity": k, "H_special:scaled": 3 * k, "start:scaled": 10 * k, "N=1": 5 * k,
          "N=2": 10 * k, "must_reject_ok": 3 * k, "max_sweeps=0_cases": 1 * k, "project=[]": 3 * k,
          "2site_with_empty_opts_svd": 3 * k, "penalised2_premise_met": 2 * k,
+         "project_listed_state_factor!=1:1site": 4 * k, "project_listed_state_factor!=1:2site": 4 * k,
+         "project_listed_state_site_scaled:1site": 2 * k, "project_listed_state_site_scaled:2site": 2 * k,
+         "project_mixed_forms_tuple_before_bare": 3 * k, "project_mixed_forms_bare_before_tuple": 3 * k,
          "penalised_runs_opts_eigs_without_which": (5 if tier == "thorough" else 1),
          "converge_runs_without_which_on_positive_spectrum": (5 if tier == "thorough" else 1)}
     if tier == "thorough":
@@ -250,16 +253,27 @@ class Dense(T.Sector):
         super().__init__(ctx, Hd, sp, N, n)
         self.pen = []            # list of (penalty, dense sector vector)
 
-    def add_penalty(self, penalty, vec):
-        self.pen.append((penalty, vec))
-        Hp = self.Hs.copy()
-        for p, v in self.pen:
-            Hp = Hp + p * np.outer(v, v.conj())
-        self.Hp = Hp
-        self.evp = np.linalg.eigvalsh(0.5 * (Hp + Hp.conj().T))
+    def add_penalty(self, penalty, vec, tensor_norm2=None):
+        """Penalty on the *direction* spanned by a listed state (docstring of dmrg_: 'add a penalty to the directions spanned by
+        MPSs in the list'; the default penalty 100 is only meaningful for a unit vector): penalty * |phi^><phi^| with phi^ the
+        normalised dense vector.  The squared norm of the state as represented (psi.factor included) and of its tensors alone
+        (factor excluded) are kept to recognise the other readings when a clause fails / in the reported energy."""
+        nrm = float(np.linalg.norm(vec))
+        full2 = nrm * nrm
+        self.pen.append((penalty, vec / nrm, full2, full2 if tensor_norm2 is None else float(tensor_norm2)))
+        self.Hp = self.hp_matrix(0)
+        self.evp = np.linalg.eigvalsh(self.Hp)
 
-    def pen_energy(self, vs):
-        return self.energy(vs) + sum(float(np.real(p)) * abs(np.vdot(v, vs)) ** 2 for p, v in self.pen)
+    def hp_matrix(self, reading):
+        """reading 0: unit vectors; 1: norm of the represented state enters; 2: norm of the tensors (factor excluded) enters."""
+        Hp = self.Hs.copy()
+        for p, v, f2, t2 in self.pen:
+            w = (1.0, f2, t2)[reading]
+            Hp = Hp + (p * w) * np.outer(v, v.conj())
+        return 0.5 * (Hp + Hp.conj().T)
+
+    def pen_energy(self, vs, reading=0):
+        return self.energy(vs) + sum(float(np.real(p)) * (1.0, f2, t2)[reading] * abs(np.vdot(v, vs)) ** 2 for p, v, f2, t2 in self.pen)
 
 
 def observe(ctx, psi, dn, tag, witness, out=None, gram=0.0, eigs_nonunit=0.0):
@@ -332,10 +346,11 @@ def judge_sweep(ctx, out, vs, nv, dn, st, tag, witness, gram=0.0, eigs_rise=0.0,
     ctx.count("energy_checks")
     if penal:
         ctx.count("energy_checks_penalised")
-        err = min(abs(out.energy - Eu), abs(out.energy - Epu))      # either reading of "energy" of a penalised run
+        # "energy" of a penalised run: <H>, or <H> + penalties -- the latter under any reading of the listed states' norms
+        err = min([abs(out.energy - Eu), abs(out.energy - Epu)] + [abs(out.energy - nv * nv * dn.pen_energy(vs, r)) for r in (1, 2)])
         if not within(ctx, "energy:penalised", err, tol):
-            bare = nv * sum(float(np.real(np.vdot(vs, v))) for _, v in dn.pen)
-            ovl = sum(abs(np.vdot(v, vs)) for _, v in dn.pen)
+            bare = nv * sum(float(np.real(np.vdot(vs, v))) for _, v, _, _ in dn.pen)
+            ovl = sum(abs(np.vdot(v, vs)) for _, v, _, _ in dn.pen)
             if abs(out.energy - (Eu + bare)) <= tol:
                 ctx.violation("energy-mismatch:project-overlap-term",
                               f"{tag}: DMRG_out.energy = {out.energy!r} but <psi|H|psi> = {Eu!r} (penalised functional {Epu!r}); the "
@@ -356,7 +371,9 @@ def judge_sweep(ctx, out, vs, nv, dn, st, tag, witness, gram=0.0, eigs_rise=0.0,
         ctx.violation("below-ground-state:reported", f"{tag}: reported energy {out.energy!r} below the lowest sector eigenvalue {lo!r}", witness)
     # --- monotonicity of the functional that is minimised: <H> + sum penalty |<phi|psi>|^2
     nothing_truncated = (dw is None) or (dw <= 1e-14 and span == 1)
-    if span > 1 and dw is not None:
+    if penal and not st.get("pen_monotone", True):
+        ctx.count("monotone_not_judged_site_scaled_listed_state")
+    elif span > 1 and dw is not None:
         ctx.count("monotone_not_judged_unobserved_sweeps")
     elif nothing_truncated:
         ctx.count("monotone_judged")
@@ -484,7 +501,7 @@ def monitored_run(ctx, psi, H, dn, counts, cfgrun, tag, witness, stop_when_conve
     vs0 = v0[dn.idx] / n0
     st = {"E_prev": dn.energy(vs0), "Ep_prev": dn.pen_energy(vs0) if dn.pen else dn.energy(vs0), "sweeps": 0,
           "Eu_prev": dn.energy(vs0),
-          "dE_hist": [], "Schmidt_tol": cfgrun.get("Schmidt_tol"), "method": None}
+          "dE_hist": [], "Schmidt_tol": cfgrun.get("Schmidt_tol"), "method": None, "pen_monotone": cfgrun.get("pen_monotone", True)}
     install_krylov_probe()
     krylov_reset()
     plan_methods = cfgrun["methods"]            # list of method per sweep
@@ -832,30 +849,43 @@ def run_case(ctx, idx):
         return
     ctx.count("penalised_runs")
     width = float(dn.ev[-1] - dn.ev[0])
+    gap01 = float(dn.ev[1] - dn.ev[0])
     default_ok = 100 > 2.5 * width and 100 < 1e3 * dn.scale            # the default penalty (100) is above the gap and not absurdly large
     own = float(2 * width + (1 + rng.random()) * dn.scale)
-    pform = rng.choice(("default", "default-twice", "tuple", "split", "tuple")) if default_ok else rng.choice(("tuple", "split", "tuple"))
+    small = 0.3 * gap01                                                 # an explicit penalty that is too weak on its own
+    forms = ["tuple", "split", "tuple"] + (["default", "default-twice", "tuple-then-bare", "bare-then-tuple"] if default_ok else [])
+    pform = rng.choice(forms)
+    m3 = rng.choice(("1site", "2site")) if N > 1 else "1site"      # a 2site sweep of a one-site chain updates nothing
+    listed_c, lkind_c, tn2_c = listed_state(rng, psi_c, sp)
     if pform == "default":
-        project, pens = [psi_c], [100]
+        project, pens = [listed_c], [100]
     elif pform == "default-twice":
-        project, pens = [psi_c, psi_c], [100, 100]                       # a repeated state: the penalties add up
+        project, pens = [listed_c, listed_c], [100, 100]                 # a repeated state: the penalties add up
     elif pform == "split":
-        project, pens = [(0.4 * own, psi_c), (0.6 * own, psi_c)], [0.4 * own, 0.6 * own]
+        project, pens = [(0.4 * own, listed_c), (0.6 * own, listed_c)], [0.4 * own, 0.6 * own]
+    elif pform == "tuple-then-bare":
+        project, pens = [(small, listed_c), listed_c], [small, 100]      # both documented entry forms in one list: the bare entry
+        ctx.count("project_mixed_forms_tuple_before_bare")               # gets the default penalty 100 wherever it stands
+    elif pform == "bare-then-tuple":
+        project, pens = [listed_c, (small, listed_c)], [100, small]
+        ctx.count("project_mixed_forms_bare_before_tuple")
     else:
-        project, pens = [(own, psi_c)], [own]
+        project, pens = [(own, listed_c)], [own]
     ctx.count("project_form:" + pform)
-    vphi, _ = T.mps_dense(psi_c, sp)       # the projected MPS exactly as it is
+    count_listed(ctx, lkind_c, m3)
+    vphi, _ = T.mps_dense(listed_c, sp)       # the listed MPS exactly as it is
     for pz in pens:
-        dn.add_penalty(pz, vphi[dn.idx])
+        dn.add_penalty(pz, vphi[dn.idx], tensor_norm2=tn2_c)
     penalty = sum(pens)
     psi_p = T.make_mps(rng, cs["nprng"], sp, N, n, mode="full", dtype=rng.choice(("float64", "complex128")), counts=counts)
-    m3 = rng.choice(("1site", "2site")) if N > 1 else "1site"      # a 2site sweep of a one-site chain updates nothing
     cfg3 = {"methods": [m3] * 40, "use_Method": False, "precompute": rng.random() < 0.5,
             "opts_eigs": stage_opts(rng),
-            "opts_svd": {"D_total": 100000} if m3 == "2site" else None, "project": project}
+            "opts_svd": {"D_total": 100000} if m3 == "2site" else None, "project": project,
+            "pen_monotone": lkind_c[0] != "site"}
     if without_which(cfg3["opts_eigs"]):
         ctx.count("penalised_runs_opts_eigs_without_which")      # the penalty itself puts a large positive level on top
-    w3 = dict(witness, stage="penalised", penalty=penalty, project_form=pform, run3={k: repr(v) for k, v in cfg3.items() if k != "project"})
+    w3 = dict(witness, stage="penalised", penalty=penalty, project_form=pform, listed_state=lkind_c,
+              run3={k: repr(v) for k, v in cfg3.items() if k != "project"})
     r3 = monitored_run(ctx, psi_p, H, dn, counts, cfg3, "penalised", w3, stop_when_converged=True)
     if not (r3["converged"] and (T.exactness_premise(psi_p, counts) or
                                  (T.is_full_manifold(psi_p, counts) and schmidt_full(dn.embed(r3["vs"]), sp, N, counts)))):
@@ -863,59 +893,135 @@ def run_case(ctx, idx):
         return
     ctx.count("penalised_premise_met")
     vp = r3["vs"]
-    at_target = judge_penalised(ctx, dn, [vs], vp, f"penalised run (penalty {penalty:.4g}, project given as '{pform}')", w3)
+    at_target = judge_penalised(ctx, dn, [vs], vp, f"penalised run (penalty {penalty:.4g}, project given as '{pform}', listed state "
+                                f"{lkind_c}, {m3})", w3)
 
-    # ---------------- second penalised stage: two projected eigenstates, listed in any order, possibly repeated
+    # ---------------- second penalised stage: two projected eigenstates, listed in any order, possibly repeated, entry forms mixed
     rp = float(np.linalg.norm(dn.Hp @ vp - dn.pen_energy(vp) * vp))
-    if not at_target or rp > 1e-7 * dn.scale or len(dn.idx) < 4 or rng.random() > 0.4:
+    if not at_target or rp > 1e-7 * dn.scale or len(dn.idx) < 4 or rng.random() > 0.5:
         return
     ctx.count("penalised2_runs")
-    vphi1, _ = T.mps_dense(psi_p, sp)
-    entries = [(own * rng.uniform(1.0, 1.5), psi_c, vphi[dn.idx]), (own * rng.uniform(1.0, 1.5), psi_p, vphi1[dn.idx])]
-    if rng.random() < 0.4:
-        entries.append((own * 0.3,) + rng.choice(entries)[1:])                   # one of the states listed twice
-    rng.shuffle(entries)
-    dn.pen = []
-    for pz, _, vec in entries:
-        dn.add_penalty(pz, vec)
-    psi_q = T.make_mps(rng, cs["nprng"], sp, N, n, mode="full", dtype=rng.choice(("float64", "complex128")), counts=counts)
     m4 = rng.choice(("1site", "2site")) if N > 1 else "1site"      # a 2site sweep of a one-site chain updates nothing
+    listed0, lkind0, tn2_0 = listed_state(rng, psi_c, sp)
+    listed1, lkind1, tn2_1 = listed_state(rng, psi_p, sp)
+    v0l, _ = T.mps_dense(listed0, sp)
+    v1l, _ = T.mps_dense(listed1, sp)
+    # entry = [penalty or None (bare MPS, default 100), state, dense vector, tensor norm^2, label]
+    E1 = dn.energy(vp)
+    mixed = default_ok and rng.random() < 0.6
+    if mixed:
+        which_bare = rng.choice((0, 0, 1))
+        # the explicit penalty of the other entry is deliberately small: it must not leak into the bare entry
+        small1 = 0.3 * min(gap01, max(float(dn.ev[2] - E1), 0.0) + gap01)
+        entries = [[None if which_bare == 0 else small, listed0, v0l[dn.idx], tn2_0, "phi0"],
+                   [None if which_bare == 1 else small1, listed1, v1l[dn.idx], tn2_1, "phi1"]]
+        if rng.random() < 0.3:
+            entries.append([own * 0.3] + rng.choice(entries)[1:])
+    else:
+        entries = [[own * rng.uniform(1.0, 1.5), listed0, v0l[dn.idx], tn2_0, "phi0"],
+                   [own * rng.uniform(1.0, 1.5), listed1, v1l[dn.idx], tn2_1, "phi1"]]
+        if rng.random() < 0.4:
+            entries.append([own * 0.3] + rng.choice(entries)[1:])                   # one of the states listed twice
+    rng.shuffle(entries)
+    if mixed:
+        first_bare = next(i for i, e in enumerate(entries) if e[0] is None)
+        if any(e[0] is not None for e in entries[:first_bare]):
+            ctx.count("project_mixed_forms_tuple_before_bare")
+        if any(e[0] is not None for e in entries[first_bare + 1:]):
+            ctx.count("project_mixed_forms_bare_before_tuple")
+    dn.pen = []
+    total = {"phi0": 0.0, "phi1": 0.0}
+    for pz, _, vec, tn2, lab in entries:
+        dn.add_penalty(100 if pz is None else pz, vec, tensor_norm2=tn2)
+        total[lab] += 100 if pz is None else pz
+    count_listed(ctx, lkind0, m4)
+    count_listed(ctx, lkind1, m4)
+    psi_q = T.make_mps(rng, cs["nprng"], sp, N, n, mode="full", dtype=rng.choice(("float64", "complex128")), counts=counts)
     cfg4 = {"methods": [m4] * 40, "use_Method": False, "precompute": rng.random() < 0.5, "opts_eigs": stage_opts(rng),
-            "opts_svd": {} if m4 == "2site" else None, "project": [(pz, st_) for pz, st_, _ in entries]}
-    w4 = dict(witness, stage="penalised2", penalties=[pz for pz, _, _ in entries], order=["phi0" if st_ is psi_c else "phi1" for _, st_, _ in entries],
-              run4={k: repr(v) for k, v in cfg4.items() if k != "project"})
+            "opts_svd": {} if m4 == "2site" else None, "project": [(st_ if pz is None else (pz, st_)) for pz, st_, _, _, _ in entries],
+            "pen_monotone": lkind0[0] != "site" and lkind1[0] != "site"}
+    w4 = dict(witness, stage="penalised2", penalties=[("bare(default 100)" if e[0] is None else e[0]) for e in entries],
+              order=[e[4] for e in entries], listed_states=[lkind0, lkind1], run4={k: repr(v) for k, v in cfg4.items() if k != "project"})
     r4 = monitored_run(ctx, psi_q, H, dn, counts, cfg4, "penalised2", w4, stop_when_converged=True)
     if not (r4["converged"] and (T.exactness_premise(psi_q, counts) or
                                  (T.is_full_manifold(psi_q, counts) and schmidt_full(dn.embed(r4["vs"]), sp, N, counts)))):
         ctx.count("premise_unmet:penalised2-not-converged-or-no-complete-site")
         return
     ctx.count("penalised2_premise_met")
-    judge_penalised(ctx, dn, [vs, vp], r4["vs"], f"run penalised by two eigenstates listed as {w4['order']}", w4)
+    # orthogonality is promised where the penalty exceeds the gap (safely: 2.5 x the width of the sector spectrum)
+    orth = [v for v, lab in ((vs, "phi0"), (vp, "phi1")) if total[lab] > 2.5 * width]
+    judge_penalised(ctx, dn, orth, r4["vs"], f"run penalised by two eigenstates listed as {w4['order']} with penalties {w4['penalties']}, "
+                    f"listed states {w4['listed_states']}, {m4}", w4)
+
+
+def listed_state(rng, psi, sp):
+    """The same direction, represented with another norm: c * psi, psi.factor = c, or one site tensor scaled by c.
+    Returns (MPS, description, squared norm of the state the *tensors* represent = factor excluded)."""
+    r = rng.random()
+    if r < 0.45:
+        kind, phi = ["plain"], psi
+    elif r < 0.65:
+        c = rng.choice((1e-3, 1e3, -2.0))
+        kind, phi = ["c*psi", c], c * psi
+    elif r < 0.82:
+        c = rng.choice((1e-3, 1e3, 2.5))
+        phi = psi.shallow_copy()
+        phi.factor = c * phi.factor
+        kind = ["psi.factor=c", c]
+    else:
+        c = rng.choice((1e3, -2.0, 1e-3))
+        phi = psi.shallow_copy()
+        j = rng.randrange(phi.N)
+        phi[j] = c * phi[j]
+        kind = ["site", c]
+    v, _ = T.mps_dense(phi, sp)
+    return phi, kind, float(np.vdot(v, v).real) / abs(phi.factor) ** 2
+
+
+def count_listed(ctx, kind, method):
+    if kind[0] in ("c*psi", "psi.factor=c"):
+        ctx.count("project_listed_state_factor!=1:" + method)
+    elif kind[0] == "site":
+        ctx.count("project_listed_state_site_scaled:" + method)
 
 
 def judge_penalised(ctx, dn, projected, vp, tag, witness):
-    """Converged penalised run at maximal bond dimension: orthogonal to every projected eigenstate and at the lowest level of
-    H + sum_i penalty_i |phi_i><phi_i|.  Returns True when it sits at that level."""
+    """Converged penalised run at maximal bond dimension: its penalised functional <H> + sum_i penalty_i |<phi_i^|psi>|^2 is the
+    lowest level of H + sum_i penalty_i |phi_i^><phi_i^|, and it is orthogonal to every projected eigenstate whose penalty exceeds
+    the gap (``projected``).  Returns True when it sits at that level."""
+    tol = 1e-7 * dn.scale
+    Ef = dn.pen_energy(vp)
+    target = float(dn.evp[0])
+    at = abs(Ef - target) <= tol
+    if not at and any(abs(t2 - 1.0) > 1e-6 for _, _, f2, t2 in dn.pen):
+        # mechanism classification: the same direction listed with its norm in a *site tensor* instead of psi.factor
+        evT = np.linalg.eigvalsh(dn.hp_matrix(2))
+        if abs(dn.pen_energy(vp, 2) - float(evT[0])) <= 1e-7 * max(dn.scale, abs(float(evT[0]))):
+            ctx.margin("project-next-level (violating cases)", abs(Ef - target), tol)
+            ctx.violation("project:listed-state-norm-enters-via-site-tensors",
+                          f"{tag} converged at <H> = {dn.energy(vp)!r}: the lowest level of H + sum_i penalty_i ||phi_i||^2 |phi_i^><phi_i^| "
+                          f"({float(evT[0])!r}), not of H + sum_i penalty_i |phi_i^><phi_i^| ({target!r}).  Env_project contracts the "
+                          f"tensors of the listed state and ignores psi.factor, so c * psi (norm in the factor: penalty on the direction) "
+                          f"and the same vector with c in a site tensor (penalty multiplied by c^2) are penalised differently", witness)
+            return False
     for j, vs in enumerate(projected):
         ov = abs(np.vdot(vs, vp))
         if not ctx.margin("project-overlap", ov, 1e-5):
             ctx.violation("project:not-orthogonal", f"{tag} converged with |<phi{j}|psi>| = {ov:.3e}", witness)
-    Ep = dn.energy(vp)
-    target = float(dn.evp[0])
-    if abs(Ep - target) <= 1e-7 * dn.scale:
-        ctx.margin("project-next-level", abs(Ep - target), 1e-7 * dn.scale)
+    if at:
+        ctx.margin("project-next-level", abs(Ef - target), tol)
         return True
-    rp = float(np.linalg.norm(dn.Hp @ vp - dn.pen_energy(vp) * vp))
-    if rp <= 1e-6 * dn.scale and Ep > target:
-        ctx.margin("project-next-level (not judged: stationary at a higher level)", abs(Ep - target), 1e-7 * dn.scale)
-        # converged to a higher eigenstate of H + sum penalty |phi><phi| (a stationary point of the sweep, e.g. protected by
+    rp = float(np.linalg.norm(dn.Hp @ vp - Ef * vp))
+    if rp <= 1e-6 * dn.scale and Ef > target:
+        ctx.margin("project-next-level (not judged: stationary at a higher level)", abs(Ef - target), tol)
+        # converged to a higher eigenstate of H + sum penalty |phi^><phi^| (a stationary point of the sweep, e.g. protected by
         # a symmetry of the random Hamiltonian that the tensors do not encode): convergence to the *lowest* level is an
-        # asymptotic promise, so this is counted and not judged
+        # asymptotic promise, so this is counted and not judged (a return onto a penalised state is caught by orthogonality)
         ctx.count("penalised_stuck_in_higher_eigenstate")
-    else:
-        ctx.margin("project-next-level (violating cases)", abs(Ep - target), 1e-7 * dn.scale)
-        ctx.violation("project:wrong-level", f"{tag} converged at <H> = {Ep!r}; lowest level of H + sum penalty|phi><phi| is "
-                      f"{target!r} (levels {dn.ev[:3].tolist()})", witness)
+        return False
+    ctx.margin("project-next-level (violating cases)", abs(Ef - target), tol)
+    ctx.violation("project:wrong-level", f"{tag} converged with <H> + penalties = {Ef!r} (<H> = {dn.energy(vp)!r}); lowest level of "
+                  f"H + sum penalty|phi^><phi^| is {target!r} (levels of H {dn.ev[:3].tolist()})", witness)
     return False
 
 
